@@ -228,7 +228,7 @@ func work(item string, sub *evid.Run) {
 		sub.Add("http_skipped_after_decode_violation", 1)
 		return
 	}
-	out := runHTTP(c.Data)
+	out := runHTTP(c.Data, mode == "H")
 	sub.Add("http_cases", 1)
 	sub.Add("http_models_created", int64(out.Created))
 	sub.Distinct("outcome", "http:"+out.Class)
@@ -250,12 +250,14 @@ func work(item string, sub *evid.Run) {
 	}
 }
 
-// magicBatch decodes every byte string of length 1..3 that starts with b0 after a magic.
+// magicBatch decodes every byte string of length 1..maxLen after a magic that starts with b0
+// and whose second byte lies in the given quarter of the byte range.
 func magicBatch(rest string, sub *evid.Run) {
 	parts := strings.Split(rest, "|")
 	mi, _ := strconv.Atoi(parts[0])
 	b0, _ := strconv.Atoi(parts[1])
 	maxLen, _ := strconv.Atoi(parts[2])
+	quarter, _ := strconv.Atoi(parts[3]) // second byte in [64*quarter, 64*quarter+63]
 	buf := make([]byte, 0, 8)
 	var n int64
 	var group [][]byte
@@ -306,9 +308,11 @@ func magicBatch(rest string, sub *evid.Run) {
 			flush()
 		}
 	}
-	emit(byte(b0))
+	if quarter == 0 {
+		emit(byte(b0))
+	}
 	if maxLen >= 2 {
-		for b1 := 0; b1 < 256; b1++ {
+		for b1 := 64 * quarter; b1 < 64*quarter+64; b1++ {
 			emit(byte(b0), byte(b1))
 			if maxLen >= 3 {
 				for b2 := 0; b2 < 256; b2++ {
@@ -318,6 +322,9 @@ func magicBatch(rest string, sub *evid.Run) {
 		}
 	}
 	flush()
+	if b0 == 0 && quarter == 0 {
+		sub.Sample(map[string]any{"item": "G|" + rest, "case": fmt.Sprintf("magic %q followed by every byte string of length 1..%d that starts with 00 and whose second byte is < 0x40 (%d cases, decode only)", magics[mi], maxLen, n)})
+	}
 	sub.Add("evaluations", n)
 	sub.Add("decode_calls", 2*n)
 	sub.Add("magic_suffix_cases", n)
@@ -593,8 +600,7 @@ func replayMain(path string) {
 			fmt.Printf("FAILS: no answer within %v (last step: %s)\n", itemTimeout, lastStep(cr.Stderr))
 			fails = true
 		case cr.Died:
-			st := lastStep(cr.Stderr)
-			sig, where, summary := crashSignature(cr.Stderr, false, st)
+			sig, where, summary, st := childSig(cr)
 			fmt.Printf("FAILS: worker process died (%s) at step %q: %s %s\n", sig, st, summary, where)
 			tail := cr.Stderr
 			if i := strings.LastIndex(tail, "\npanic: "); i >= 0 {
@@ -744,7 +750,9 @@ func main() {
 	var gitems []string
 	for mi := range magics {
 		for b := 0; b < 256; b++ {
-			gitems = append(gitems, fmt.Sprintf("G|%d|%d|%d", mi, b, maxSuffix))
+			for q := 0; q < 4; q++ {
+				gitems = append(gitems, fmt.Sprintf("G|%d|%d|%d|%d", mi, b, maxSuffix, q))
+			}
 		}
 	}
 	logf("stage 1: %d items (%d seeds+singles+retyped, %d truncations, %d magic items) + %d magic batches", len(items), nSingles, nTrunc, len(items)-nSingles-nTrunc, len(gitems))
